@@ -377,6 +377,41 @@ class ExecMixin(object):
                 cls = e.id
         return [(RAISE, st, (cls, args))]
 
+    IMPLICIT_EXC = ("AttributeError", "TypeError", "KeyError", "IndexError", "ValueError", "ZeroDivisionError",
+                    "LookupError", "ArithmeticError", "Exception", "BaseException")
+
+    def st_Try(self, stmt, st):
+        """try/except over EXPLICIT raises (raise statements, callee contracts that raise).  Implicit exceptions are
+        obligations or assumptions in this engine, never control flow: a handler that could catch one is out of subset."""
+        if stmt.finalbody:
+            raise OutOfSubset("try/finally", stmt)
+        names = []
+        for h in stmt.handlers:
+            if h.type is None:
+                raise OutOfSubset("bare except", stmt)
+            ts = h.type.elts if isinstance(h.type, ast.Tuple) else [h.type]
+            for t in ts:
+                if not isinstance(t, ast.Name):
+                    raise OutOfSubset("except with a computed class", stmt)
+                if t.id in self.IMPLICIT_EXC:
+                    raise OutOfSubset("except %s: implicit exceptions are not control flow here" % t.id, stmt)
+            names.append([t.id for t in ts])
+        outs = []
+        for kind, s2, val in self.run_block(stmt.body, st):
+            if kind == RAISE:
+                hit = next((h for h, ns in zip(stmt.handlers, names) if val[0] in ns), None)
+                if hit is not None:
+                    if hit.name:
+                        s2.env[hit.name] = s2.alloc(HOpaque())
+                    outs.extend(self.run_block(hit.body, s2))
+                    continue
+                outs.append((kind, s2, val))
+            elif kind == NORMAL and stmt.orelse:
+                outs.extend(self.run_block(stmt.orelse, s2))
+            else:
+                outs.append((kind, s2, val))
+        return outs
+
     def st_With(self, stmt, st):
         if len(stmt.items) != 1:
             raise OutOfSubset("with (several items)", stmt)
